@@ -51,9 +51,9 @@ class Bomb:
         self.msg = msg; self.defused = False
 
 class ClosureV:
-    __slots__ = ("ty", "caps")
-    def __init__(self, ty, caps):
-        self.ty = ty; self.caps = caps
+    __slots__ = ("ty", "caps", "tysubst")
+    def __init__(self, ty, caps, tysubst=None):
+        self.ty = ty; self.caps = caps; self.tysubst = tysubst
 
 class FnItem:
     __slots__ = ("name",)
@@ -209,6 +209,7 @@ class Program:
 
     # --- method index
     def _index(self):
+        self._inherent = set()
         for raw, f in self.funcs.items():
             m = re.search(r"<impl at ([^:>]+):(\d+):(\d+): (\d+):(\d+)>::([A-Za-z_0-9]+)((?:::\{closure#\d+\})*)$", raw)
             if not m:
@@ -232,7 +233,11 @@ class Program:
                 a0 = f.argtypes[0] if f.argtypes else f.ret
                 selfty = last_seg(a0.lstrip("&").replace("mut ", ""))
             self.methods.setdefault((selfty, trait, meth), f)
-            self.methods.setdefault((selfty, None, meth), f)
+            if trait is None:
+                self.methods[(selfty, None, meth)] = f          # an inherent method wins over a trait method of the same name
+                self._inherent.add((selfty, meth))
+            elif (selfty, meth) not in self._inherent:
+                self.methods.setdefault((selfty, None, meth), f)
             if not hdr.startswith("impl") and f.ret:
                 # derive-generated impl (the span is the derive name): Self may only occur in the return type (`From::from`)
                 rs = last_seg(f.ret.lstrip("&").replace("mut ", ""))
@@ -290,6 +295,10 @@ class Program:
         f = self.funcs.get(sg)
         if f is not None:
             return f
+        if len(segs) >= 2 and segs[-2][:1].isupper():
+            return None         # a method of a type that has no such method in the repository: an external type
+        if segs[0] in EXTERN_CRATES:
+            return None
         return self.suffix_match(sg)
 
     def trait_default(self, callee):
@@ -323,6 +332,10 @@ class Program:
             c = {b: compile_block(raw) for b, raw in f.blocks.items()}
             self.compiled[f.rawname] = c
         return c
+
+EXTERN_CRATES = {"std", "core", "alloc", "hashbrown", "rowan", "triomphe", "text_size", "unicode_xid", "unicode_properties", "drop_bomb",
+                 "limit", "ra_ap_limit", "smol_str", "ariadne", "countme", "rustc_hash", "itertools", "boolenum", "foldhash", "memoffset"}
+
 
 def strip_generics(s):
     out = []; depth = 0; i = 0
@@ -394,6 +407,7 @@ class Exec:
         self.steps = 0
         self.depth = 0
         self.stack = []
+        self.subst_stack = [None]
         self.solver_calls = 0
         self.pinned = []
         self.obligations = 0
@@ -625,10 +639,21 @@ class Exec:
             if h is None:
                 d = self.prog.trait_default(callee)
                 if d is not None:
-                    return self.run(d[0], args, selfty=d[1])
+                    return self.run(d[0], args, tysubst={"Self": d[1]})
                 raise Unsupported("call " + callee)
             return h(self, callee, args)
         return self.run(f, args)
+
+    def subst_types(self, callee, tysubst):
+        key = (callee, tuple(sorted(tysubst.items())))
+        r = self.prog._rcache.get(("subst", key))
+        if r is None:
+            r = callee
+            for name, ty in tysubst.items():
+                if name in r:
+                    r = re.sub(r"(?<![A-Za-z0-9_:])%s(?![A-Za-z0-9_])" % re.escape(name), ty, r)
+            self.prog._rcache[("subst", key)] = r
+        return r
 
     def call_closure(self, fv, args):
         """fv: ClosureV | FnItem | PyFn ; args: list"""
@@ -656,11 +681,11 @@ class Exec:
                         a0 = Ref([fv], 0)
                     if not f.argtypes[0].startswith("&") and isinstance(a0, Ref):
                         a0 = a0.get()
-                    return self.run(f, [a0] + list(args))
+                    return self.run(f, [a0] + list(args), tysubst=fv.tysubst if fv.tysubst is not None else self.subst_stack[-1])
             raise Unsupported("closure body " + fv.ty)
         raise Unsupported("call of " + repr(fv))
 
-    def run(self, f, args, selfty=None):
+    def run(self, f, args, tysubst=None):
         if f.kind == "constval":
             return self.const_value(f.src, f.ret)
         if self.hooks:
@@ -668,7 +693,9 @@ class Exec:
             if hk is not None:
                 hk(self, f, args)
         self.depth += 1
+        self.subst_stack.append(tysubst)
         if self.depth > 400:
+            self.subst_stack.pop(); self.depth -= 1
             raise StepLimit("recursion depth")
         code = self.prog.code(f)
         L = {}
@@ -689,8 +716,8 @@ class Exec:
                     elif k == "call":
                         argv = [self.operand(a, L) for a in st[3]]
                         callee = st[2]
-                        if selfty is not None and "Self" in callee:
-                            callee = re.sub(r"\bSelf\b", selfty, callee)
+                        if tysubst:
+                            callee = self.subst_types(callee, tysubst)
                         if callee.startswith(("move _", "copy _")):
                             fv = self.operand(Operand(callee[:4], Place(int(callee[6:]), [])), L)
                             r = self.call_closure(fv, argv)
@@ -733,6 +760,7 @@ class Exec:
         finally:
             self.depth -= 1
             self.stack.pop()
+            self.subst_stack.pop()
 
     def switch(self, v, targets, other):
         if type(v).__name__ == "LenV":
@@ -938,7 +966,7 @@ class Exec:
             return FnItem(t)
         if self.models.lookup(t) is not None:
             return FnItem(t)
-        if t.split("::")[-1] in ("RangeFull", "PhantomData", "Global"):
+        if t.split("::")[-1] in ("RangeFull", "PhantomData", "Global") or strip_generics(t).split("::")[-1] in ("RangeFull", "PhantomData", "Global"):
             return Opaque("unit:" + t)      # unit struct value
         raise Unsupported("const " + t)
 
@@ -1011,13 +1039,13 @@ class Exec:
             m = re.match(r"^(\{closure@[^}]*\})(?: \{ (.*) \})?$", txt)
             if not m:
                 m2 = re.match(r"^\{(closure@[^}]*)\}$", txt)
-                return ClosureV("{" + m2.group(1) + "}", [])
+                return ClosureV("{" + m2.group(1) + "}", [], self.subst_stack[-1])
             caps = []
             if m.group(2):
                 for fld in split_top(m.group(2)):
                     nm, op = fld.split(": ", 1)
                     caps.append(self.operand(parse_operand(op), L))
-            return ClosureV(m.group(1), caps)
+            return ClosureV(m.group(1), caps, self.subst_stack[-1])
         if k == "len":
             v = self.load(rv[1], L)
             if hasattr(v, "len_sym"):
